@@ -93,7 +93,10 @@ def _cases(draw, ctx):
     unknown = []
     used = set()
     for _ in range(nunk):
-        name = draw(unknown_names.filter(lambda n: n not in used))
+        if unknown and draw(st.integers(0, 3)) == 0:
+            name = unknown[-1][0]          # the same unknown name again (with another body)
+        else:
+            name = draw(unknown_names.filter(lambda n: n not in used))
         used.add(name)
         body = draw(st.lists(body_lines, max_size=5))
         pos = draw(st.integers(0, len(names)))
@@ -200,7 +203,18 @@ def check_case(ctx: Ctx, case) -> None:
                 return
         if _same(ctx, "unknown-ignored", base, base_obs, other, dict(rc, with_unknown=utext)):
             want = sorted(u[0] for u in unknown)
-            why = C.reports_match(C.records_of(recs, "chartparse.chart"), want)
+            got_recs = C.records_of(recs, "chartparse.chart")
+            if len(set(want)) < len(want):
+                # a name that occurs twice: reported at least once and at most once per occurrence
+                msgs = [r.getMessage() for r in got_recs]
+                why = None
+                if not (len(set(want)) <= len(got_recs) <= len(want)):
+                    why = f"{len(set(want))}..{len(want)} reports expected, {len(got_recs)} log records"
+                for nm in set(want):
+                    if nm.strip() and not any(nm in m for m in msgs):
+                        why = f"{nm!r} is not reported"
+            else:
+                why = C.reports_match(got_recs, want)
             if why:
                 ctx.fail("unknown-reported", f"unknown sections {want} are not reported exactly once "
                                              f"each: {why}; records {[r.getMessage()[:80] for r in recs][:4]}",
